@@ -138,6 +138,10 @@ def menu(M, seen):
                 add({"op": kind})
             if names[0] != "n":
                 add({"op": "count", "by": [names[0]]})
+            if n >= 1:
+                # group-wise modify: a result that fits its group is stored, one that does not fit is rejected
+                add({"op": "grouped_modify", "by": names[0], "name": fresh(M, "gm"), "extra": 0})
+                add({"op": "grouped_modify", "by": names[0], "name": fresh(M, "gm"), "extra": 1})
         add({"op": "rbind_self"})
         add({"op": "rbind_partner"})
         if n >= 1:
@@ -213,7 +217,7 @@ def adds_column(op, M):
         return 1
     if o == "modify" and not M.has(op["name"]):
         return 1
-    if o in ("cbind", "update", "rbind_partner", "left_join", "inner_join", "full_join"):
+    if o in ("cbind", "update", "rbind_partner", "left_join", "inner_join", "full_join", "grouped_modify"):
         return 1
     return 0
 
@@ -344,6 +348,10 @@ def apply_real(d, M, op):
         return getattr(d, o)(p, M.names[0]), [p]
     if o == "count":
         return d.count(*op["by"]), []
+    if o == "grouped_modify":
+        extra = op["extra"]
+        g = d.copy().group_by(op["by"])
+        return g.modify(**{op["name"]: (lambda x: list(range(x.nrow + extra)))}), []
     if o == "rbind_self":
         return d.rbind(d), []
     if o == "rbind_partner":
@@ -447,6 +455,10 @@ def apply_model(M, op):
         return None, {"adopt": True}
     if o == "count":
         return M.count(op["by"]), flags
+    if o == "grouped_modify":
+        if op["extra"]:
+            raise Rejected("a group-wise result that does not fit its group")
+        return None, {"adopt": True}  # the values are C04's subject; here: the frame stays rectangular
     if o == "rbind_self":
         return M.rbind([M]), flags
     if o == "rbind_partner":
